@@ -320,6 +320,27 @@ func transcribe(list []ast.Stmt, recv string) []string {
 // transcribeSend: the statements of send().
 func transcribeSend(f *fn) []string {
 	var out []string
+	// deferred recover(): does it assign the named result `err`?
+	ast.Inspect(f.decl.Body, func(n ast.Node) bool {
+		d, ok := n.(*ast.DeferStmt)
+		if !ok {
+			return true
+		}
+		ast.Inspect(d, func(m ast.Node) bool {
+			is, ok := m.(*ast.IfStmt)
+			if !ok || is.Init == nil || !strings.Contains(sel2(is.Init), "recover()") {
+				return true
+			}
+			ast.Inspect(is.Body, func(k ast.Node) bool {
+				if as, ok := k.(*ast.AssignStmt); ok && len(as.Lhs) == 1 && sel(as.Lhs[0]) == "err" && as.Tok == token.ASSIGN {
+					out = append(out, ".recoverSetsErr")
+				}
+				return true
+			})
+			return false
+		})
+		return false
+	})
 	ast.Inspect(f.decl.Body, func(n ast.Node) bool {
 		switch x := n.(type) {
 		case *ast.IfStmt:
@@ -333,6 +354,155 @@ func transcribeSend(f *fn) []string {
 				out = append(out, ".armDeadline")
 			case "bufWrite":
 				out = append(out, ".bufWrite")
+			}
+		}
+		return true
+	})
+	return out
+}
+
+func sel2(n ast.Node) string { // textual form of the calls under n
+	var b strings.Builder
+	ast.Inspect(n, func(m ast.Node) bool {
+		if c, ok := m.(*ast.CallExpr); ok {
+			b.WriteString(sel(c.Fun) + "() ")
+		}
+		return true
+	})
+	return b.String()
+}
+
+// licenseExpr: the license makeData hashes into the header, as a Tcp.LicExpr.
+func licenseExpr(md *fn) string {
+	hashArg := func(b ast.Node, optVar string) string {
+		res := ".unknown"
+		ast.Inspect(b, func(m ast.Node) bool {
+			if c, ok := m.(*ast.CallExpr); ok && strings.HasSuffix(sel(c.Fun), ".WriteHeader") && len(c.Args) == 4 {
+				if h, ok := c.Args[3].(*ast.CallExpr); ok && len(h.Args) == 1 && strings.HasSuffix(sel(h.Fun), "Hash64Str") {
+					switch a := sel(h.Args[0]); {
+					case optVar != "" && a == optVar+".License":
+						res = ".override"
+					case a == md.recv+".License":
+						res = ".client"
+					}
+				}
+			}
+			return true
+		})
+		return res
+	}
+	out := ""
+	ast.Inspect(md.decl.Body, func(n ast.Node) bool {
+		if out != "" {
+			return false
+		}
+		is, ok := n.(*ast.IfStmt)
+		if !ok || is.Else == nil {
+			return true
+		}
+		cond := exprStr(is.Cond)
+		for _, form := range []struct{ suffix, ctor string }{{`.License!=""`, ".ifOverrideNonEmpty"}, {`.License==""`, ".ifOverrideEmpty"}} {
+			if strings.HasSuffix(cond, form.suffix) && !strings.HasPrefix(cond, md.recv+".") {
+				v := strings.TrimSuffix(cond, form.suffix)
+				out = fmt.Sprintf("%s %s %s", form.ctor, hashArg(is.Body, v), hashArg(is.Else, v))
+			}
+		}
+		return true
+	})
+	if out == "" {
+		out = hashArg(md.decl.Body, "")
+	}
+	return out
+}
+
+func transcribeSendFlush(f *fn) []string {
+	var out []string
+	for _, st := range f.decl.Body.List {
+		is, ok := st.(*ast.IfStmt)
+		if !ok {
+			if r, ok := st.(*ast.ReturnStmt); ok && containsCall(r, f.recv, "sendDirect") {
+				out = append(out, ".sendDirect")
+			}
+			continue
+		}
+		if exprStr(is.Cond) == f.recv+".UseQueue" {
+			out = append(out, ".ifUseQueue")
+		} else {
+			out = append(out, ".ifOther")
+		}
+		branch := func(b ast.Node) {
+			if b == nil {
+				return
+			}
+			if containsCall(b, f.recv, "queuePut") {
+				// nil exactly when Put returned true: `if ret == true { return nil } else { return errors.New(…) }`
+				byResult, retNil, retErr := false, false, false
+				ast.Inspect(b, func(m ast.Node) bool {
+					switch x := m.(type) {
+					case *ast.IfStmt:
+						if c := exprStr(x.Cond); c == "ret==true" || c == "ret" {
+							byResult = true
+						}
+					case *ast.ReturnStmt:
+						if len(x.Results) == 1 {
+							if exprStr(x.Results[0]) == "nil" {
+								retNil = true
+							} else {
+								retErr = true
+							}
+						}
+					}
+					return true
+				})
+				out = append(out, ".queuePut "+lb(byResult && retNil && retErr))
+			}
+			if containsCall(b, f.recv, "sendDirect") {
+				out = append(out, ".sendDirect")
+			}
+		}
+		branch(is.Body)
+		out = append(out, ".elseBranch")
+		branch(is.Else)
+		out = append(out, ".endIf")
+	}
+	return out
+}
+
+func transcribeConn(f *fn) []string {
+	var out []string
+	ast.Inspect(f.decl.Body, func(n ast.Node) bool {
+		switch x := n.(type) {
+		case *ast.IfStmt:
+			c := exprStr(x.Cond)
+			if c == f.recv+".conn!=nil" && leaves(x.Body) {
+				out = append(out, ".retIfConnSet")
+				return false
+			}
+			if c == f.recv+".conn==nil" && leaves(x.Body) {
+				out = append(out, ".retIfConnNil")
+				return false
+			}
+		case *ast.CallExpr:
+			switch classify(x, f.recv) {
+			case "dial":
+				out = append(out, ".dial")
+			case "connClose":
+				out = append(out, ".connClose")
+			}
+		case *ast.AssignStmt:
+			for i, l := range x.Lhs {
+				switch sel(l) {
+				case f.recv + ".conn":
+					if i < len(x.Rhs) && exprStr(x.Rhs[i]) == "nil" {
+						out = append(out, ".assignConnNil")
+					} else {
+						out = append(out, ".assignConn")
+					}
+				case f.recv + ".wr":
+					if i < len(x.Rhs) && callKind(x.Rhs[i], f.recv) == "newWriter" {
+						out = append(out, ".assignWrNew")
+					}
+				}
 			}
 		}
 		return true
@@ -644,6 +814,22 @@ func main() {
 	fmt.Fprintf(&b, "    procTop := %s\n", leanList(top))
 	fmt.Fprintf(&b, "    procItem := %s\n", leanList(item))
 	fmt.Fprintf(&b, "    applyConfig := %s }\n", leanList(transcribe(ac.decl.Body.List, ac.recv)))
+	sendIs := false
+	if sf0 := get("Send"); len(sf0.decl.Body.List) == 1 {
+		if r, ok := sf0.decl.Body.List[0].(*ast.ReturnStmt); ok && len(r.Results) == 1 {
+			if c, ok := r.Results[0].(*ast.CallExpr); ok && sel(c.Fun) == sf0.recv+".SendFlush" && len(c.Args) >= 2 && exprStr(c.Args[1]) == "false" {
+				sendIs = true
+			}
+		}
+	}
+	b.WriteString("\ndef bodies : Bodies :=\n")
+	fmt.Fprintf(&b, "  { license := %s\n", licenseExpr(md))
+	fmt.Fprintf(&b, "    headerSrc := %s\n", num(src))
+	fmt.Fprintf(&b, "    headerVer := %s\n", num(ver))
+	fmt.Fprintf(&b, "    sendFlush := %s\n", leanList(transcribeSendFlush(sf)))
+	fmt.Fprintf(&b, "    sendIsSendFlushFalse := %s\n", leanBool(sendIs))
+	fmt.Fprintf(&b, "    connect := %s\n", leanList(transcribeConn(co)))
+	fmt.Fprintf(&b, "    close := %s }\n", leanList(transcribeConn(cl)))
 	b.WriteString("\nend Gen.C06\n")
 	if *out == "" {
 		fmt.Print(b.String())
